@@ -208,7 +208,7 @@ func TestC16Sizes(t *testing.T) {
 }
 
 var profEnum = &Profile{
-	Name: "C16-enum", MinOps: 4, MaxOps: 120, NColls: 2, MemPct: 30, Cmps: true, EndOnly: 100,
+	Name: "C16-enum", MinOps: 4, MaxOps: 120, NColls: 2, MemPct: 30, Cmps: true, EndOnly: 100, Nested: true,
 	Kinds: []wk{{OpSet, 60}, {OpSetR, 6}, {OpDel, 8}, {OpFlush, 4}, {OpEvict, 4}, {OpReopen, 2}, {OpLen, 5}, {OpBlock, 8}, {OpRandom, 6}, {OpSet, 4}},
 }
 
